@@ -322,6 +322,10 @@ Qed.
 Theorem own_limit_reaches_every_handle h configured ps : own_at h configured ps = configured.
 Proof. destruct h as [[psc|] [|]| |[|]]; reflexivity. Qed.
 
+(* every sending handle reads the connection's settings cell *)
+Theorem every_sending_handle_reads_the_connection_cell h ps : settings_seen_by h ps = ps.
+Proof. destruct h as [[|]|[|] [|]|[|]]; reflexivity. Qed.
+
 (* ---------------------------------------------------------------- early cancel: an oversize section is refused as too big
    whatever follows the lines that already exceed the limit (a truncated or undecodable tail is never looked at) *)
 Inductive reads : bytes -> list field -> bytes -> Prop :=
